@@ -156,6 +156,51 @@ pub fn run(args: &Args) -> Report {
     }
     rep.bump("cap200_cases", fam * 4);
     rep.bump("cap200_shortened", fam_short);
+
+    // (4) difference-position sweep: over-long names that differ in exactly ONE character, at EVERY position of the
+    // name in turn (so also names sharing a long prefix AND a long suffix), must get different shortened symbols --
+    // the digest has to depend on every part of the name.  Production cap and the small caps of (2).
+    let mut sweep_cases = 0u64;
+    for (cap, base) in [
+        (200usize, "pkg::module::submodule::generic_function_name[std::collections::HashMap[Int64, std::string::String], (Int64, Int64)]#".repeat(4)),
+        (200usize, "x".repeat(520)),
+        (40usize, "abcdefghijklmnopqrstuvwxyz_0123456789".repeat(4)),
+        (34usize, "q:[,]ä".repeat(20)),
+    ] {
+        let chars: Vec<char> = base.chars().collect();
+        let mut outputs: HashMap<String, String> = HashMap::new();
+        outputs.insert(mangle_name_with_max_len(&base, cap), base.clone());
+        for p in 0..chars.len() {
+            for repl in ['Q', '_', ':'] {
+                if chars[p] == repl {
+                    continue;
+                }
+                let mut v = chars.clone();
+                v[p] = repl;
+                let name: String = v.into_iter().collect();
+                sweep_cases += 1;
+                match guarded(|| mangle_name_with_max_len(&name, cap)) {
+                    Err(pn) => rep.add(pn.key(), &name, &pn.message),
+                    Ok(m) => {
+                        if m.len() > cap || !valid_symbol(&m) {
+                            rep.add("c19:sweep-invalid".into(), &name, &m);
+                        }
+                        if let Some(prev) = outputs.insert(m.clone(), name.clone()) {
+                            if prev != name {
+                                rep.add(
+                                    "c19:shortened-collision".into(),
+                                    &format!("position {} of {}", p, chars.len()),
+                                    &format!("cap {}: two names differing only at character {} -> {}", cap, p, m),
+                                );
+                            }
+                        }
+                    }
+                }
+            }
+        }
+    }
+    rep.evaluations += sweep_cases;
+    rep.bump("difference_position_sweep_cases", sweep_cases);
     rep.samples = vec!["a:[".into(), "_5F".into(), "Z,ä😀".into(), format!("{}17", &prefix[..40])];
     rep
 }
